@@ -94,6 +94,9 @@ package getty
 //@ ghost var sent_codec int
 //@ ghost var sent_body any
 //@ ghost var sent_err_nil bool
+//@ ghost var regrm_sent bool
+//@ ghost var regtm_sent bool
+//@ ghost var has_rm_resources bool
 
 // Lazily initialised singleton behind sync.Once: trusted (body not verified).
 //@ func GetGettyRemotingClient
@@ -104,14 +107,15 @@ package getty
 // handed over is recorded. SendAsync itself is verified under C14.
 //@ func (*GettyRemoting).SendAsync
 //@   trusted
-//@   modifies ghost.sent, ghost.sent_id, ghost.sent_type, ghost.sent_codec, ghost.sent_body, ghost.sent_err_nil
+//@   modifies ghost.sent, ghost.sent_id, ghost.sent_type, ghost.sent_codec, ghost.sent_body, ghost.sent_err_nil, ghost.regrm_sent, ghost.regtm_sent
 //@   ensures ghost.sent == old(ghost.sent) + 1 && ghost.sent_id == msg.ID && ghost.sent_type == msg.Type && ghost.sent_codec == msg.Codec && ghost.sent_body == msg.Body
 //@   ensures ghost.sent_err_nil == (result == nil)
+//@   ensures ghost.regrm_sent == (old(ghost.regrm_sent) || isT(msg.Body, message.RegisterRMRequest)) && ghost.regtm_sent == (old(ghost.regtm_sent) || isT(msg.Body, message.RegisterTMRequest))
 
 //@ func (*GettyRemotingClient).SendAsyncResponse
 //@   prop C15
 //@   requires client != nil && client.gettyRemoting != nil
-//@   modifies ghost.sent, ghost.sent_id, ghost.sent_type, ghost.sent_codec, ghost.sent_body, ghost.sent_err_nil
+//@   modifies ghost.sent, ghost.sent_id, ghost.sent_type, ghost.sent_codec, ghost.sent_body, ghost.sent_err_nil, ghost.regrm_sent, ghost.regtm_sent
 //@   ensures id: ghost.sent == old(ghost.sent) + 1 && ghost.sent_id == msgID && ghost.sent_type == 1 && ghost.sent_codec == 1 && ghost.sent_body == msg
 //@   ensures result-is-transport: ghost.sent_err_nil == (result == nil)
 //@   ensures frame: wrote_nothing()
@@ -246,3 +250,12 @@ package getty
 //@   modifies syncmap(g, "allSessions"), syncmap(g, "serverSessions")
 //@   ensures released: !haskey(syncmap(g, "allSessions"), session)
 //@   ensures others-unchanged: k != session ==> haskey(syncmap(g, "allSessions"), k) == old(haskey(syncmap(g, "allSessions"), k))
+
+// What a new session announces (C19): the work started by OnOpen runs in a goroutine, verified here as
+// the function literal OnOpen$1. has_rm_resources is an unconstrained ghost flag standing for "the
+// client has registered at least one resource with a resource manager".
+//@ func (*gettyClientHandler).OnOpen$1
+//@   prop C19
+//@   requires ghost.sent == 0 && !ghost.regrm_sent && !ghost.regtm_sent && sessionManager != nil && session != nil
+//@   ensures announce-tm: ghost.regtm_sent && ghost.sent >= 1
+//@   ensures announce-rm: ghost.has_rm_resources ==> ghost.regrm_sent
